@@ -1,19 +1,12 @@
 /-
-  CC.Proofs.DrawRoundTrip — one save/load cycle of a single drawing element, evaluated
-  symbolically on the interpretive model (CC/Model/DrawIO.lean over the generated tables):
-  for every persistable symbol class and *all* values, reversal flags, names and anchors
+  CC.Proofs.DrawRoundTrip — one save/load cycle of a single drawing element on the interpretive
+  model (CC/Model/DrawIO.lean over the generated tables): definitions and the consequences of
+  the per-class facts, which are proved by symbolic evaluation in CC/Proofs/DrawRT*.lean for
+  every persistable symbol class and *all* values, flags, names and anchors:
 
-    (B) the reloaded element translates to the same component        `RoundTrips`
-    (F) reloading a reloaded element changes nothing                  `Idempotent`
-    (S) class, anchors, name, reversal flag and node id are kept      `ShellKept`
-
-  and hence any number of cycles gives the same component (`elem_cycles_stable`).
-  The element is saved together with its own translated component as the circuit section
-  (`reloadElem`); lifting this to whole drawings (the circuit section of a drawing is looked
-  up by element name) is `C15_roundtrip_statement`, still open.
-
-  The proofs unfold the generated tables: when /repo changes a constructor, a translator, a
-  component constructor or the loader table, they are re-checked against the new tables.
+    (B) the reloaded element translates to the same component, for any terminal names  `RoundTrips`
+    (F) reloading a reloaded element changes nothing                                   `Idempotent`
+    (S) class, anchors, name, reversal flag and node id are kept                       `ShellKept`
 -/
 import CC.Proofs.DrawIO
 set_option linter.unusedSectionVars false
@@ -24,26 +17,31 @@ namespace CC.Draw
 /-- the component a single drawing element translates to, for given terminal names -/
 def elemComp (π : Rat) (d : DElem) (nodes : List String) : Except Err (Option Component) := do
   let s ← d.toSym π
-  match Gen.translatorMap.lookup s.cls with
-  | none => throw Err.unknownKind
-  | some f =>
-    match Gen.translators.lookup f with
-    | none => throw (Err.other "translator missing")
-    | some cases => runCases π s nodes cases
+  compOfSym π s nodes
+
+/-- the circuit section that consists of one element's own component -/
+def ownCirc : Option Component → List (String × List (String × Val))
+  | some k => [(k.id, k.value)]
+  | none => []
+
+/-- save the element with circuit section `k` (its own component, if it has one) and load it -/
+def reloadFrom (π : Rat) (d : DElem) (k : Option Component) : Except Err DElem := do
+  let saved ← dictifyElement π d
+  undictifyDElem (ownCirc k) saved
 
 /-- save the element (with its own component as the circuit section) and load it again -/
 def reloadElem (π : Rat) (d : DElem) (nodes : List String) : Except Err DElem := do
-  let c ← elemComp π d nodes
-  let saved ← dictifyElement π d
-  let circ := match c with | some k => [(k.id, k.value)] | none => []
-  undictifyDElem circ saved
+  let k ← elemComp π d nodes
+  reloadFrom π d k
 
 /-- what the parser sees of an element besides its translator attributes -/
 def shell (π : Rat) (d : DElem) : String × Pt × Pt × Option (String × Bool × String) :=
   (d.cls, d.start, d.stop, match d.toSym π with | .ok s => some (s.name, s.rev, s.nodeId) | .error _ => none)
 
 def RoundTrips (π : Rat) (d : DElem) : Prop :=
-  ∀ la lb : String, (do elemComp π (← reloadElem π d [la, lb]) [la, lb]) = elemComp π d [la, lb]
+  ∀ la lb la' lb' : String,
+    (do let k ← elemComp π d [la, lb]; let d' ← reloadFrom π d k; elemComp π d' [la', lb']) =
+    (do let _ ← elemComp π d [la, lb]; elemComp π d [la', lb'])
 
 def Idempotent (π : Rat) (d : DElem) : Prop :=
   ∀ la lb : String, (do reloadElem π (← reloadElem π d [la, lb]) [la, lb]) = reloadElem π d [la, lb]
@@ -52,10 +50,36 @@ def ShellKept (π : Rat) (d : DElem) : Prop :=
   ∀ la lb : String, (do let d' ← reloadElem π d [la, lb]; pure (shell π d') : Except Err _) =
     (do let _ ← elemComp π d [la, lb]; pure (shell π d))
 
+/-- a reloaded element is a fixed point of further save/load cycles, whatever terminal names
+it is translated with -/
+def FixedAfter (π : Rat) (d : DElem) : Prop :=
+  ∀ la lb la' lb' : String,
+    (do let k ← elemComp π d [la, lb]; let d' ← reloadFrom π d k
+        let k' ← elemComp π d' [la', lb']; reloadFrom π d' k') =
+    (do let k ← elemComp π d [la, lb]; let d' ← reloadFrom π d k
+        let _ ← elemComp π d' [la', lb']; pure d')
+
 structure ElemStable (π : Rat) (d : DElem) : Prop where
   roundtrip : RoundTrips π d
-  idempotent : Idempotent π d
+  fixed : FixedAfter π d
   shell : ShellKept π d
+
+theorem ElemStable.idempotent {π : Rat} {d : DElem} (h : ElemStable π d) : Idempotent π d := by
+  intro la lb
+  have hF := h.fixed la lb la lb
+  have hB := h.roundtrip la lb la lb
+  unfold reloadElem
+  cases hk : elemComp π d [la, lb] with
+  | error e => simp [hk, bind, Except.bind]
+  | ok k =>
+    simp only [hk, bind, Except.bind] at hF hB ⊢
+    cases hd : reloadFrom π d k with
+    | error e => simp [hd]
+    | ok d' =>
+      simp only [hd] at hF hB ⊢
+      rw [hB] at hF
+      simp only [pure, Except.pure] at hF
+      rw [hB]; exact hF
 
 /-- `n` save/load cycles of one element -/
 def reloadN (π : Rat) (nodes : List String) : Nat → DElem → Except Err DElem
@@ -70,10 +94,20 @@ theorem reloadN_succ_eq {π : Rat} {d : DElem} (h : Idempotent π d) (la lb : St
     show (do reloadElem π (← reloadN π [la, lb] (n + 1) d) [la, lb]) = _
     rw [ih]; exact h la lb
 
+theorem roundtrip_same_nodes {π : Rat} {d : DElem} (h : RoundTrips π d) (la lb : String) :
+    (do elemComp π (← reloadElem π d [la, lb]) [la, lb]) = elemComp π d [la, lb] := by
+  have := h la lb la lb
+  unfold reloadElem
+  cases hk : elemComp π d [la, lb] with
+  | error e => simp [hk, bind, Except.bind]
+  | ok k =>
+    simp only [hk, bind, Except.bind] at this ⊢
+    exact this
+
 /-- any positive number of cycles gives the component of the original element -/
 theorem elem_cycles_stable {π : Rat} {d : DElem} (h : ElemStable π d) (n : Nat) (la lb : String) :
     (do elemComp π (← reloadN π [la, lb] (n + 1) d) [la, lb]) = elemComp π d [la, lb] := by
-  rw [reloadN_succ_eq h.idempotent]; exact h.roundtrip la lb
+  rw [reloadN_succ_eq h.idempotent]; exact roundtrip_same_nodes h.roundtrip la lb
 
 theorem GQ.im_zero : (0 : GQ).im = 0 := rfl
 theorem GQ.re_zero : (0 : GQ).re = 0 := rfl
@@ -81,315 +115,5 @@ theorem GQ.mk_zero : (⟨0, 0⟩ : GQ) = 0 := rfl
 theorem GQ.mk_eq_zero (r i : Rat) : ((⟨r, i⟩ : GQ) = 0) = (r = 0 ∧ i = 0) := by
   simp [GQ.zero_def]
 theorem GQ.eta (z : GQ) : (⟨z.re, z.im⟩ : GQ) = z := rfl
-
-section
-attribute [local simp] RoundTrips Idempotent ShellKept shell elemComp reloadElem DElem.toSym construct classInfo
-    Gen.elemClasses classChain bindParams evalF evalP
-    lookupD truthy dictSet List.lookup List.find? negVal Gen.translatorMap Gen.translators runCases runCase
-    nodeTuple evalV Sym.getAttr Gen.ctors applyCtor evalC valNeg dictifyElement userParams serializeVal undictifyDElem
-    undictifyKwargs combineToComplex Gen.loaderTypes dictUpdate bind Except.bind pure Except.pure List.mapM List.mapM.loop List.foldlM
-    forIn Gen.knownWavetypes GQ.neg_def GQ.eta GQ.im_zero GQ.re_zero GQ.mk_zero GQ.mk_eq_zero Functor.map Except.map throw throwThe MonadExceptOf.throw
-
-set_option maxRecDepth 8000
-set_option maxHeartbeats 400000
-
-theorem rt_VoltageSource (π : Rat) (z : GQ) (rev : Bool) (name : String) (a b : Pt) :
-    RoundTrips π ⟨"VoltageSource", [("V", .num z), ("name", .str name), ("reverse", .bool rev)], a, b⟩ := by
-  intro la lb
-  cases rev <;> simp
-
-theorem fx_VoltageSource (π : Rat) (z : GQ) (rev : Bool) (name : String) (a b : Pt) :
-    Idempotent π ⟨"VoltageSource", [("V", .num z), ("name", .str name), ("reverse", .bool rev)], a, b⟩ := by
-  intro la lb
-  cases rev <;> simp
-
-theorem sh_VoltageSource (π : Rat) (z : GQ) (rev : Bool) (name : String) (a b : Pt) :
-    ShellKept π ⟨"VoltageSource", [("V", .num z), ("name", .str name), ("reverse", .bool rev)], a, b⟩ := by
-  intro la lb
-  cases rev <;> simp
-
-theorem stable_VoltageSource (π : Rat) (z : GQ) (rev : Bool) (name : String) (a b : Pt) :
-    ElemStable π ⟨"VoltageSource", [("V", .num z), ("name", .str name), ("reverse", .bool rev)], a, b⟩ :=
-  ⟨rt_VoltageSource π z rev name a b, fx_VoltageSource π z rev name a b, sh_VoltageSource π z rev name a b⟩
-
-theorem rt_CurrentSource (π : Rat) (z : GQ) (rev : Bool) (name : String) (a b : Pt) :
-    RoundTrips π ⟨"CurrentSource", [("I", .num z), ("name", .str name), ("reverse", .bool rev)], a, b⟩ := by
-  intro la lb
-  cases rev <;> simp
-
-theorem fx_CurrentSource (π : Rat) (z : GQ) (rev : Bool) (name : String) (a b : Pt) :
-    Idempotent π ⟨"CurrentSource", [("I", .num z), ("name", .str name), ("reverse", .bool rev)], a, b⟩ := by
-  intro la lb
-  cases rev <;> simp
-
-theorem sh_CurrentSource (π : Rat) (z : GQ) (rev : Bool) (name : String) (a b : Pt) :
-    ShellKept π ⟨"CurrentSource", [("I", .num z), ("name", .str name), ("reverse", .bool rev)], a, b⟩ := by
-  intro la lb
-  cases rev <;> simp
-
-theorem stable_CurrentSource (π : Rat) (z : GQ) (rev : Bool) (name : String) (a b : Pt) :
-    ElemStable π ⟨"CurrentSource", [("I", .num z), ("name", .str name), ("reverse", .bool rev)], a, b⟩ :=
-  ⟨rt_CurrentSource π z rev name a b, fx_CurrentSource π z rev name a b, sh_CurrentSource π z rev name a b⟩
-
-theorem rt_ComplexVoltageSource (π : Rat) (z : GQ) (rev : Bool) (name : String) (a b : Pt) :
-    RoundTrips π ⟨"ComplexVoltageSource", [("V", .num z), ("name", .str name), ("reverse", .bool rev)], a, b⟩ := by
-  intro la lb
-  by_cases h0 : z.im = 0 <;> cases rev <;> simp [h0]
-
-theorem fx_ComplexVoltageSource (π : Rat) (z : GQ) (rev : Bool) (name : String) (a b : Pt) :
-    Idempotent π ⟨"ComplexVoltageSource", [("V", .num z), ("name", .str name), ("reverse", .bool rev)], a, b⟩ := by
-  intro la lb
-  by_cases h0 : z.im = 0 <;> cases rev <;> simp [h0]
-
-theorem sh_ComplexVoltageSource (π : Rat) (z : GQ) (rev : Bool) (name : String) (a b : Pt) :
-    ShellKept π ⟨"ComplexVoltageSource", [("V", .num z), ("name", .str name), ("reverse", .bool rev)], a, b⟩ := by
-  intro la lb
-  by_cases h0 : z.im = 0 <;> cases rev <;> simp [h0]
-
-theorem stable_ComplexVoltageSource (π : Rat) (z : GQ) (rev : Bool) (name : String) (a b : Pt) :
-    ElemStable π ⟨"ComplexVoltageSource", [("V", .num z), ("name", .str name), ("reverse", .bool rev)], a, b⟩ :=
-  ⟨rt_ComplexVoltageSource π z rev name a b, fx_ComplexVoltageSource π z rev name a b, sh_ComplexVoltageSource π z rev name a b⟩
-
-theorem rt_ComplexCurrentSource_reversed (π : Rat) (z : GQ) (name : String) (a b : Pt) :
-    RoundTrips π ⟨"ComplexCurrentSource", [("I", .num z), ("name", .str name), ("reverse", .bool true)], a, b⟩ := by
-  intro la lb
-  by_cases h0 : z.im = 0 <;> simp [h0]
-
-theorem fx_ComplexCurrentSource_reversed (π : Rat) (z : GQ) (name : String) (a b : Pt) :
-    Idempotent π ⟨"ComplexCurrentSource", [("I", .num z), ("name", .str name), ("reverse", .bool true)], a, b⟩ := by
-  intro la lb
-  by_cases h0 : z.im = 0 <;> simp [h0]
-
-theorem sh_ComplexCurrentSource_reversed (π : Rat) (z : GQ) (name : String) (a b : Pt) :
-    ShellKept π ⟨"ComplexCurrentSource", [("I", .num z), ("name", .str name), ("reverse", .bool true)], a, b⟩ := by
-  intro la lb
-  by_cases h0 : z.im = 0 <;> simp [h0]
-
-theorem stable_ComplexCurrentSource_reversed (π : Rat) (z : GQ) (name : String) (a b : Pt) :
-    ElemStable π ⟨"ComplexCurrentSource", [("I", .num z), ("name", .str name), ("reverse", .bool true)], a, b⟩ :=
-  ⟨rt_ComplexCurrentSource_reversed π z name a b, fx_ComplexCurrentSource_reversed π z name a b, sh_ComplexCurrentSource_reversed π z name a b⟩
-
-theorem rt_ACVoltageSource (π : Rat) (v w phi : GQ) (hv : v.im = 0) (hw : w.im = 0) (hw0 : ¬ w.re < 0) (hp : phi.im = 0) (rev : Bool) (name : String) (a b : Pt) :
-    RoundTrips π ⟨"ACVoltageSource", [("V", .num v), ("w", .num w), ("phi", .num phi), ("name", .str name), ("reverse", .bool rev)], a, b⟩ := by
-  intro la lb
-  cases rev <;> simp [hv, hw, hw0, hp]
-
-theorem fx_ACVoltageSource (π : Rat) (v w phi : GQ) (hv : v.im = 0) (hw : w.im = 0) (hw0 : ¬ w.re < 0) (hp : phi.im = 0) (rev : Bool) (name : String) (a b : Pt) :
-    Idempotent π ⟨"ACVoltageSource", [("V", .num v), ("w", .num w), ("phi", .num phi), ("name", .str name), ("reverse", .bool rev)], a, b⟩ := by
-  intro la lb
-  cases rev <;> simp [hv, hw, hw0, hp]
-
-theorem sh_ACVoltageSource (π : Rat) (v w phi : GQ) (hv : v.im = 0) (hw : w.im = 0) (hw0 : ¬ w.re < 0) (hp : phi.im = 0) (rev : Bool) (name : String) (a b : Pt) :
-    ShellKept π ⟨"ACVoltageSource", [("V", .num v), ("w", .num w), ("phi", .num phi), ("name", .str name), ("reverse", .bool rev)], a, b⟩ := by
-  intro la lb
-  cases rev <;> simp [hv, hw, hw0, hp]
-
-theorem stable_ACVoltageSource (π : Rat) (v w phi : GQ) (hv : v.im = 0) (hw : w.im = 0) (hw0 : ¬ w.re < 0) (hp : phi.im = 0) (rev : Bool) (name : String) (a b : Pt) :
-    ElemStable π ⟨"ACVoltageSource", [("V", .num v), ("w", .num w), ("phi", .num phi), ("name", .str name), ("reverse", .bool rev)], a, b⟩ :=
-  ⟨rt_ACVoltageSource π v w phi hv hw hw0 hp rev name a b, fx_ACVoltageSource π v w phi hv hw hw0 hp rev name a b, sh_ACVoltageSource π v w phi hv hw hw0 hp rev name a b⟩
-
-theorem rt_ACCurrentSource (π : Rat) (v w phi : GQ) (hv : v.im = 0) (hw : w.im = 0) (hw0 : ¬ w.re < 0) (hp : phi.im = 0) (rev : Bool) (name : String) (a b : Pt) :
-    RoundTrips π ⟨"ACCurrentSource", [("I", .num v), ("w", .num w), ("phi", .num phi), ("name", .str name), ("reverse", .bool rev)], a, b⟩ := by
-  intro la lb
-  cases rev <;> simp [hv, hw, hw0, hp]
-
-theorem fx_ACCurrentSource (π : Rat) (v w phi : GQ) (hv : v.im = 0) (hw : w.im = 0) (hw0 : ¬ w.re < 0) (hp : phi.im = 0) (rev : Bool) (name : String) (a b : Pt) :
-    Idempotent π ⟨"ACCurrentSource", [("I", .num v), ("w", .num w), ("phi", .num phi), ("name", .str name), ("reverse", .bool rev)], a, b⟩ := by
-  intro la lb
-  cases rev <;> simp [hv, hw, hw0, hp]
-
-theorem sh_ACCurrentSource (π : Rat) (v w phi : GQ) (hv : v.im = 0) (hw : w.im = 0) (hw0 : ¬ w.re < 0) (hp : phi.im = 0) (rev : Bool) (name : String) (a b : Pt) :
-    ShellKept π ⟨"ACCurrentSource", [("I", .num v), ("w", .num w), ("phi", .num phi), ("name", .str name), ("reverse", .bool rev)], a, b⟩ := by
-  intro la lb
-  cases rev <;> simp [hv, hw, hw0, hp]
-
-theorem stable_ACCurrentSource (π : Rat) (v w phi : GQ) (hv : v.im = 0) (hw : w.im = 0) (hw0 : ¬ w.re < 0) (hp : phi.im = 0) (rev : Bool) (name : String) (a b : Pt) :
-    ElemStable π ⟨"ACCurrentSource", [("I", .num v), ("w", .num w), ("phi", .num phi), ("name", .str name), ("reverse", .bool rev)], a, b⟩ :=
-  ⟨rt_ACCurrentSource π v w phi hv hw hw0 hp rev name a b, fx_ACCurrentSource π v w phi hv hw hw0 hp rev name a b, sh_ACCurrentSource π v w phi hv hw hw0 hp rev name a b⟩
-
-theorem rt_RectVoltageSource (π : Rat) (v w phi : GQ) (hv : v.im = 0) (hw : w.im = 0) (hw0 : ¬ w.re < 0) (hp : phi.im = 0) (rev : Bool) (name : String) (a b : Pt) :
-    RoundTrips π ⟨"RectVoltageSource", [("V", .num v), ("w", .num w), ("phi", .num phi), ("name", .str name), ("reverse", .bool rev)], a, b⟩ := by
-  intro la lb
-  cases rev <;> simp [hv, hw, hw0, hp]
-
-theorem fx_RectVoltageSource (π : Rat) (v w phi : GQ) (hv : v.im = 0) (hw : w.im = 0) (hw0 : ¬ w.re < 0) (hp : phi.im = 0) (rev : Bool) (name : String) (a b : Pt) :
-    Idempotent π ⟨"RectVoltageSource", [("V", .num v), ("w", .num w), ("phi", .num phi), ("name", .str name), ("reverse", .bool rev)], a, b⟩ := by
-  intro la lb
-  cases rev <;> simp [hv, hw, hw0, hp]
-
-theorem sh_RectVoltageSource (π : Rat) (v w phi : GQ) (hv : v.im = 0) (hw : w.im = 0) (hw0 : ¬ w.re < 0) (hp : phi.im = 0) (rev : Bool) (name : String) (a b : Pt) :
-    ShellKept π ⟨"RectVoltageSource", [("V", .num v), ("w", .num w), ("phi", .num phi), ("name", .str name), ("reverse", .bool rev)], a, b⟩ := by
-  intro la lb
-  cases rev <;> simp [hv, hw, hw0, hp]
-
-theorem stable_RectVoltageSource (π : Rat) (v w phi : GQ) (hv : v.im = 0) (hw : w.im = 0) (hw0 : ¬ w.re < 0) (hp : phi.im = 0) (rev : Bool) (name : String) (a b : Pt) :
-    ElemStable π ⟨"RectVoltageSource", [("V", .num v), ("w", .num w), ("phi", .num phi), ("name", .str name), ("reverse", .bool rev)], a, b⟩ :=
-  ⟨rt_RectVoltageSource π v w phi hv hw hw0 hp rev name a b, fx_RectVoltageSource π v w phi hv hw hw0 hp rev name a b, sh_RectVoltageSource π v w phi hv hw hw0 hp rev name a b⟩
-
-theorem rt_RectCurrentSource (π : Rat) (v w phi : GQ) (hv : v.im = 0) (hw : w.im = 0) (hw0 : ¬ w.re < 0) (hp : phi.im = 0) (rev : Bool) (name : String) (a b : Pt) :
-    RoundTrips π ⟨"RectCurrentSource", [("I", .num v), ("w", .num w), ("phi", .num phi), ("name", .str name), ("reverse", .bool rev)], a, b⟩ := by
-  intro la lb
-  cases rev <;> simp [hv, hw, hw0, hp]
-
-theorem fx_RectCurrentSource (π : Rat) (v w phi : GQ) (hv : v.im = 0) (hw : w.im = 0) (hw0 : ¬ w.re < 0) (hp : phi.im = 0) (rev : Bool) (name : String) (a b : Pt) :
-    Idempotent π ⟨"RectCurrentSource", [("I", .num v), ("w", .num w), ("phi", .num phi), ("name", .str name), ("reverse", .bool rev)], a, b⟩ := by
-  intro la lb
-  cases rev <;> simp [hv, hw, hw0, hp]
-
-theorem sh_RectCurrentSource (π : Rat) (v w phi : GQ) (hv : v.im = 0) (hw : w.im = 0) (hw0 : ¬ w.re < 0) (hp : phi.im = 0) (rev : Bool) (name : String) (a b : Pt) :
-    ShellKept π ⟨"RectCurrentSource", [("I", .num v), ("w", .num w), ("phi", .num phi), ("name", .str name), ("reverse", .bool rev)], a, b⟩ := by
-  intro la lb
-  cases rev <;> simp [hv, hw, hw0, hp]
-
-theorem stable_RectCurrentSource (π : Rat) (v w phi : GQ) (hv : v.im = 0) (hw : w.im = 0) (hw0 : ¬ w.re < 0) (hp : phi.im = 0) (rev : Bool) (name : String) (a b : Pt) :
-    ElemStable π ⟨"RectCurrentSource", [("I", .num v), ("w", .num w), ("phi", .num phi), ("name", .str name), ("reverse", .bool rev)], a, b⟩ :=
-  ⟨rt_RectCurrentSource π v w phi hv hw hw0 hp rev name a b, fx_RectCurrentSource π v w phi hv hw hw0 hp rev name a b, sh_RectCurrentSource π v w phi hv hw hw0 hp rev name a b⟩
-
-theorem rt_Resistor (π : Rat) (z : GQ) (him : z.im = 0) (hpos : ¬ z.re < 0) (rev : Bool) (name : String) (a b : Pt) :
-    RoundTrips π ⟨"Resistor", [("R", .num z), ("name", .str name), ("reverse", .bool rev)], a, b⟩ := by
-  intro la lb
-  by_cases h0 : z = 0
-  · subst h0; cases rev <;> simp
-  · cases rev <;> simp [h0, him, hpos]
-
-theorem fx_Resistor (π : Rat) (z : GQ) (him : z.im = 0) (hpos : ¬ z.re < 0) (rev : Bool) (name : String) (a b : Pt) :
-    Idempotent π ⟨"Resistor", [("R", .num z), ("name", .str name), ("reverse", .bool rev)], a, b⟩ := by
-  intro la lb
-  by_cases h0 : z = 0
-  · subst h0; cases rev <;> simp
-  · cases rev <;> simp [h0, him, hpos]
-
-theorem sh_Resistor (π : Rat) (z : GQ) (him : z.im = 0) (hpos : ¬ z.re < 0) (rev : Bool) (name : String) (a b : Pt) :
-    ShellKept π ⟨"Resistor", [("R", .num z), ("name", .str name), ("reverse", .bool rev)], a, b⟩ := by
-  intro la lb
-  by_cases h0 : z = 0
-  · subst h0; cases rev <;> simp
-  · cases rev <;> simp [h0, him, hpos]
-
-theorem stable_Resistor (π : Rat) (z : GQ) (him : z.im = 0) (hpos : ¬ z.re < 0) (rev : Bool) (name : String) (a b : Pt) :
-    ElemStable π ⟨"Resistor", [("R", .num z), ("name", .str name), ("reverse", .bool rev)], a, b⟩ :=
-  ⟨rt_Resistor π z him hpos rev name a b, fx_Resistor π z him hpos rev name a b, sh_Resistor π z him hpos rev name a b⟩
-
-theorem rt_Conductance (π : Rat) (z : GQ) (him : z.im = 0) (hpos : ¬ z.re < 0) (rev : Bool) (name : String) (a b : Pt) :
-    RoundTrips π ⟨"Conductance", [("G", .num z), ("name", .str name), ("reverse", .bool rev)], a, b⟩ := by
-  intro la lb
-  by_cases h0 : z = 0
-  · subst h0; cases rev <;> simp
-  · cases rev <;> simp [h0, him, hpos]
-
-theorem fx_Conductance (π : Rat) (z : GQ) (him : z.im = 0) (hpos : ¬ z.re < 0) (rev : Bool) (name : String) (a b : Pt) :
-    Idempotent π ⟨"Conductance", [("G", .num z), ("name", .str name), ("reverse", .bool rev)], a, b⟩ := by
-  intro la lb
-  by_cases h0 : z = 0
-  · subst h0; cases rev <;> simp
-  · cases rev <;> simp [h0, him, hpos]
-
-theorem sh_Conductance (π : Rat) (z : GQ) (him : z.im = 0) (hpos : ¬ z.re < 0) (rev : Bool) (name : String) (a b : Pt) :
-    ShellKept π ⟨"Conductance", [("G", .num z), ("name", .str name), ("reverse", .bool rev)], a, b⟩ := by
-  intro la lb
-  by_cases h0 : z = 0
-  · subst h0; cases rev <;> simp
-  · cases rev <;> simp [h0, him, hpos]
-
-theorem stable_Conductance (π : Rat) (z : GQ) (him : z.im = 0) (hpos : ¬ z.re < 0) (rev : Bool) (name : String) (a b : Pt) :
-    ElemStable π ⟨"Conductance", [("G", .num z), ("name", .str name), ("reverse", .bool rev)], a, b⟩ :=
-  ⟨rt_Conductance π z him hpos rev name a b, fx_Conductance π z him hpos rev name a b, sh_Conductance π z him hpos rev name a b⟩
-
-theorem rt_Capacitor (π : Rat) (z : GQ) (him : z.im = 0) (hpos : ¬ z.re < 0) (rev : Bool) (name : String) (a b : Pt) :
-    RoundTrips π ⟨"Capacitor", [("C", .num z), ("name", .str name), ("reverse", .bool rev)], a, b⟩ := by
-  intro la lb
-  cases rev <;> simp [him, hpos]
-
-theorem fx_Capacitor (π : Rat) (z : GQ) (him : z.im = 0) (hpos : ¬ z.re < 0) (rev : Bool) (name : String) (a b : Pt) :
-    Idempotent π ⟨"Capacitor", [("C", .num z), ("name", .str name), ("reverse", .bool rev)], a, b⟩ := by
-  intro la lb
-  cases rev <;> simp [him, hpos]
-
-theorem sh_Capacitor (π : Rat) (z : GQ) (him : z.im = 0) (hpos : ¬ z.re < 0) (rev : Bool) (name : String) (a b : Pt) :
-    ShellKept π ⟨"Capacitor", [("C", .num z), ("name", .str name), ("reverse", .bool rev)], a, b⟩ := by
-  intro la lb
-  cases rev <;> simp [him, hpos]
-
-theorem stable_Capacitor (π : Rat) (z : GQ) (him : z.im = 0) (hpos : ¬ z.re < 0) (rev : Bool) (name : String) (a b : Pt) :
-    ElemStable π ⟨"Capacitor", [("C", .num z), ("name", .str name), ("reverse", .bool rev)], a, b⟩ :=
-  ⟨rt_Capacitor π z him hpos rev name a b, fx_Capacitor π z him hpos rev name a b, sh_Capacitor π z him hpos rev name a b⟩
-
-theorem rt_Inductance (π : Rat) (z : GQ) (him : z.im = 0) (hpos : ¬ z.re < 0) (rev : Bool) (name : String) (a b : Pt) :
-    RoundTrips π ⟨"Inductance", [("L", .num z), ("name", .str name), ("reverse", .bool rev)], a, b⟩ := by
-  intro la lb
-  cases rev <;> simp [him, hpos]
-
-theorem fx_Inductance (π : Rat) (z : GQ) (him : z.im = 0) (hpos : ¬ z.re < 0) (rev : Bool) (name : String) (a b : Pt) :
-    Idempotent π ⟨"Inductance", [("L", .num z), ("name", .str name), ("reverse", .bool rev)], a, b⟩ := by
-  intro la lb
-  cases rev <;> simp [him, hpos]
-
-theorem sh_Inductance (π : Rat) (z : GQ) (him : z.im = 0) (hpos : ¬ z.re < 0) (rev : Bool) (name : String) (a b : Pt) :
-    ShellKept π ⟨"Inductance", [("L", .num z), ("name", .str name), ("reverse", .bool rev)], a, b⟩ := by
-  intro la lb
-  cases rev <;> simp [him, hpos]
-
-theorem stable_Inductance (π : Rat) (z : GQ) (him : z.im = 0) (hpos : ¬ z.re < 0) (rev : Bool) (name : String) (a b : Pt) :
-    ElemStable π ⟨"Inductance", [("L", .num z), ("name", .str name), ("reverse", .bool rev)], a, b⟩ :=
-  ⟨rt_Inductance π z him hpos rev name a b, fx_Inductance π z him hpos rev name a b, sh_Inductance π z him hpos rev name a b⟩
-
-theorem rt_Impedance (π : Rat) (r i : Rat) (rev : Bool) (name : String) (a b : Pt) :
-    RoundTrips π ⟨"Impedance", [("Z", .num ⟨r, i⟩), ("name", .str name), ("reverse", .bool rev)], a, b⟩ := by
-  intro la lb
-  by_cases hr : r = 0 <;> by_cases hi : i = 0 <;> cases rev <;> simp [hr, hi]
-
-theorem fx_Impedance (π : Rat) (r i : Rat) (rev : Bool) (name : String) (a b : Pt) :
-    Idempotent π ⟨"Impedance", [("Z", .num ⟨r, i⟩), ("name", .str name), ("reverse", .bool rev)], a, b⟩ := by
-  intro la lb
-  by_cases hr : r = 0 <;> by_cases hi : i = 0 <;> cases rev <;> simp [hr, hi]
-
-theorem sh_Impedance (π : Rat) (r i : Rat) (rev : Bool) (name : String) (a b : Pt) :
-    ShellKept π ⟨"Impedance", [("Z", .num ⟨r, i⟩), ("name", .str name), ("reverse", .bool rev)], a, b⟩ := by
-  intro la lb
-  by_cases hr : r = 0 <;> by_cases hi : i = 0 <;> cases rev <;> simp [hr, hi]
-
-theorem stable_Impedance (π : Rat) (r i : Rat) (rev : Bool) (name : String) (a b : Pt) :
-    ElemStable π ⟨"Impedance", [("Z", .num ⟨r, i⟩), ("name", .str name), ("reverse", .bool rev)], a, b⟩ :=
-  ⟨rt_Impedance π r i rev name a b, fx_Impedance π r i rev name a b, sh_Impedance π r i rev name a b⟩
-
-theorem rt_Ground (π : Rat)  (name : String) (a b : Pt) :
-    RoundTrips π ⟨"Ground", [("name", .str name)], a, b⟩ := by
-  intro la lb
-  simp
-
-theorem fx_Ground (π : Rat)  (name : String) (a b : Pt) :
-    Idempotent π ⟨"Ground", [("name", .str name)], a, b⟩ := by
-  intro la lb
-  simp
-
-theorem sh_Ground (π : Rat)  (name : String) (a b : Pt) :
-    ShellKept π ⟨"Ground", [("name", .str name)], a, b⟩ := by
-  intro la lb
-  simp
-
-theorem stable_Ground (π : Rat)  (name : String) (a b : Pt) :
-    ElemStable π ⟨"Ground", [("name", .str name)], a, b⟩ :=
-  ⟨rt_Ground π  name a b, fx_Ground π  name a b, sh_Ground π  name a b⟩
-
-theorem rt_Line (π : Rat) (rev : Bool) (name : String) (a b : Pt) :
-    RoundTrips π ⟨"Line", [("reverse", .bool rev)], a, b⟩ := by
-  intro la lb
-  cases rev <;> simp
-
-theorem fx_Line (π : Rat) (rev : Bool) (name : String) (a b : Pt) :
-    Idempotent π ⟨"Line", [("reverse", .bool rev)], a, b⟩ := by
-  intro la lb
-  cases rev <;> simp
-
-theorem sh_Line (π : Rat) (rev : Bool) (name : String) (a b : Pt) :
-    ShellKept π ⟨"Line", [("reverse", .bool rev)], a, b⟩ := by
-  intro la lb
-  cases rev <;> simp
-
-theorem stable_Line (π : Rat) (rev : Bool) (name : String) (a b : Pt) :
-    ElemStable π ⟨"Line", [("reverse", .bool rev)], a, b⟩ :=
-  ⟨rt_Line π rev name a b, fx_Line π rev name a b, sh_Line π rev name a b⟩
-
-end
 
 end CC.Draw
